@@ -609,6 +609,11 @@ func (e *Engine) instrMods(fn *ssa.Function, in ssa.Instruction, ms *modSet, r *
 		storeTarget(x.Addr, ms)
 	case *ssa.MapUpdate:
 		ms.keys["map:"+typeKey(x.Map.Type())+"|"] = true
+	case *ssa.Send:
+		ms.ghosts["sends"] = true
+	case *ssa.Select:
+		ms.ghosts["sends"] = true
+		ms.ghosts["recvs"] = true
 	case *ssa.UnOp:
 		if x.Op == token.ARROW {
 			ms.ghosts["recvs"] = true
